@@ -1,5 +1,6 @@
 #!/bin/bash
 # tools/thorough_all.sh [props...] : run the thorough tier of every check once on the unchanged tree (meant for `vp run`)
+[ -n "$VP_RUN_REPO" ] && export VERIF_REPO=$VP_RUN_REPO
 props=${@:-C01 C02 C03 C04 C05 C06 C07 C08 C09 C10 C11 C12 C13 C14 C15 C16 C17 C18 C19 C20}
 [ -x build/extract/driver ] || ./setup.sh > /dev/null 2>&1
 mkdir -p soak
